@@ -216,6 +216,12 @@ def shard(shard_i, nshards, payload):
                             decls = rng.choice(faults)[2]
                     docs[u].append(vgen.render_unit(decls))
                 docs[u].append(world.texts[u][rng.choice([1, 2])])
+                # same-length re-layouts of the documents (a line break moved): positions change, the size does not
+                for base in list(docs[u]):
+                    k1 = base.find("\n")
+                    k2 = base.find(" ", k1 + 40) if k1 >= 0 else -1
+                    if k1 > 0 and k2 > 0:
+                        docs[u].append(base[:k1] + " " + base[k1 + 1:k2] + "\n" + base[k2 + 1:])
             hist = []
             for _ in range(rng.randint(4, payload["random_len"])):
                 u = rng.choice("ab")
